@@ -46,6 +46,12 @@ Table "Python construct -> model term" (names are recognised by ROLE, not by spe
   B[cb + (min_i,)].append(a)                              child min_i := child min_i ++ [a]
   for i in range(options["k"]): branch(cb + (i,))         recursion over the children
   logger.*(...)                                           nothing
+
+SECOND MODULE (`gen_alloc`, Gen/ControlTreeAlloc.lean): the distance fill of `branch()`, the tree's
+`discretize_control`, the base `discretize_control` + member loop of `discretize_controls`, the member loops of
+`transcribe()` and the symbol-cache key of `state_at()`; its closed table "Python construct -> model term" is the
+docstring that precedes `_attr_self` further down in this file (reference definitions: Model/C07Code.lean, bridging
+proofs: Proofs/C07Code.lean).
 """
 import ast
 import os
@@ -511,3 +517,917 @@ def gen_cluster(c):
             f.write(text)
         os.replace(tmp, path)
     return [("RtcVerif.Gen.ControlTreeCluster", "RtcVerif.Gen", THEOREMS)]
+
+
+# =================================================================================================
+# distance fill + control-index allocation  (Gen/ControlTreeAlloc.lean)
+# =================================================================================================
+"""
+Second generated module: `gen_alloc(c)` reads
+
+  (1) the distance fill of `branch()` (everything before `available = set(branches[cb])`),
+  (2) `ControlTreeMixin.discretize_control`,
+  (3) `CollocatedIntegratedOptimizationProblem.discretize_control` and the member loop of its
+      `discretize_controls`,
+  (4) the member loops of `CollocatedIntegratedOptimizationProblem.transcribe()` (uses of per-member data),
+  (5) the symbol-cache key of `CollocatedIntegratedOptimizationProblem.state_at()`
+
+and writes `lean/RtcVerif/Gen/ControlTreeAlloc.lean`.  Statements are executed SYMBOLICALLY: local names
+are bound to Lean terms, so renamed locals, re-ordered independent assignments and commuted `c + x`
+give the same output; anything outside the table raises TranslationError.
+
+Table "Python construct -> model term" (reference definitions: Model/C07Code.lean):
+
+  self.__branching_times[e]                      `btAt t0 bts e`        (BT = [t0] ++ branching_times ++ [inf]; none = inf)
+  len(current_branch) / len(branch)              `L` / `br.1.length`
+  e + c, c + e (c a literal)                     `(e + c)`
+  X >= b, X > b, X < b, X <= b (X a stamp array) `geBT t b`, `gtBT t b`, `ltBT t b`, `leBT t b`   per stamp t
+  np.logical_and(A, B)                           `fun t => A && B` (lower-bound conjunct first), mapped over the stamps of X
+  self.constant_inputs(ensemble_member=e)[fv]    the series of forecast variable `v` as member e has it
+  S.times / S.values                             `fc.T v e` / `fc.F v e`
+  V[els]                                         `selMask V els`
+  V - W                                          `subVec V W`
+  np.linalg.norm(V)                              `fc.norm2 V`           (external numerics: a parameter)
+  for fv in options["forecast_variables"]        `v` in `List.range nv`
+  for i, member_i in enumerate(branches[cb])     position i, member `ms.getD i 0`; the position used as ROW index of
+                                                 `distances[., .]` is `p`, the COLUMN index is `q`
+  distances = np.zeros((n, n))                   initial value 0 of the accumulation
+  distances[i, j] += e  / = e / -= e             `acc + e` / `e` / `acc - e`  folded over the forecast variables
+  np.zeros(len(times), dtype=np.intNN)           `List.replicate ts.length 0`; index width NN-1 bits (`indexBitsGen`)
+  for branch, members in self.__branches.items() fold over the dictionary entries `br = (branch, members)` in dictionary order
+  if ensemble_member not in members: continue    `if !(br.2.contains m) then st`
+  np.count_nonzero(els)                          `els.count true`
+  try: A[els] = CACHE[(variable, branch)]        `match lookupB st.cache br.1 with | some blk => writeMask A els blk`
+  except KeyError: ...                           `| none => ...`
+  list(range(a, a + n))                          `List.range' a n`
+  A[els] = V                                     `writeMask A els V`
+  CACHE[(variable, branch)] = A[els]             `(br.1, readMask A els) :: st.cache`
+  offset += n                                    `offset + n`
+  return control_indices                         the array (and the cache)
+  base class: try: return CACHE[variable]        `match cache with | some s => (s, some s)`
+  slice(a, b)                                    the pair `(a, b)`
+  CACHE[variable] = s ; return s                 `(s, some s)`
+  for ensemble_member in range(self.ensemble_size):           one step `ctrlStepGen` on `(count, cache, indices)`
+  ci = self.discretize_control(variable, ensemble_member, times, count)     `dc m count cache`
+  indices[ensemble_member][variable] = ci        `out ++ [ci]`  (index must be the loop member)
+  ci.stop if isinstance(ci, slice) else int(np.max(ci)) + c     `stopSliceGen` = `s.2`, `stopArrGen` = `arr.foldl max 0 + c`
+  count = max(count, stop)  /  count = stop      `max count (stop ci)` / `stop ci`
+  transcribe(): inside `for ensemble_member in range(self.ensemble_size)` every per-member accessor
+  (`self.parameters(e)`, `self.constant_inputs(e)`, `self.history(e)`, `self.seed(e)`, `self.objective(e)`,
+  `self.constraints(e)`, `self.path_constraints(e)`, `self.ensemble_member_probability(e)`,
+  `self.extra_variable(_, e)`, `self.state_vector(_, ensemble_member=e)`, `ensemble_store[e]`,
+  `ensemble_aggregate[_][:, e]`, `self.__indices[e]`, `self.__indices_as_lists[e]`, `self.__integrators[e]`,
+  `self.__func_initial_inputs[e]`, `self.__func_map_args[e]`, `ensemble_parameter_values[e]`)
+                                                 one entry `(accessor, own)` of `memberUsesGen`, own = (e is the loop member)
+  state_at(): name = "..{}..".format(a1, .., an) ; if extrapolate: name += "E"       the cache key `symbolKeyGen a` = the tuple
+                                                 of the format arguments: `variable` -> `a.var`, `ensemble_member` ->
+                                                 `a.member`, `t - self.initial_time` -> `a.dt`, `"S" if scaled else ""` ->
+                                                 `a.scaled`, the suffix under `if extrapolate` -> `a.extrapolate`
+  try: return self.__symbol_cache[name] except KeyError: ... self.__symbol_cache[name] = sym ; return sym
+                                                 `memoGet symbolKeyGen build` (the body that builds `sym` is `build`)
+"""
+
+
+def _attr_self(node, suffix):
+    """self.<...suffix> (private names are written unmangled in the source)"""
+    return isinstance(node, ast.Attribute) and _is_name(node.value, "self") and node.attr == suffix
+
+
+def _plus(node):
+    """e + c / c + e with an int literal c -> (e, c); else None"""
+    if isinstance(node, ast.BinOp) and isinstance(node.op, ast.Add):
+        cl, cr = _const(node.left), _const(node.right)
+        if cr is not None and cl is None and cr == int(cr) and cr >= 0:
+            return node.left, int(cr)
+        if cl is not None and cr is None and cl == int(cl) and cl >= 0:
+            return node.right, int(cl)
+    return None
+
+
+class _Sym:
+    """expressions shared by the fill and by discretize_control"""
+
+    def __init__(self, depth_name, depth_term):
+        self.depth_name = depth_name   # python name whose len() is the depth
+        self.depth_term = depth_term   # Lean term of that depth
+        self.env = {}                  # python local -> ("nat"|"bt"|"mask"|"series"|"vec"|"rat", lean term[, extra])
+
+    def nat(self, node):
+        pl = _plus(node)
+        if pl:
+            return "(%s + %d)" % (self.nat(pl[0]), pl[1])
+        if isinstance(node, ast.Call) and _is_name(node.func, "len") and len(node.args) == 1 \
+                and _is_name(node.args[0], self.depth_name):
+            return self.depth_term
+        if _is_name(node) and node.id in self.env and self.env[node.id][0] == "nat":
+            return self.env[node.id][1]
+        raise TranslationError("unsupported index expression `%s`" % _u(node))
+
+    def bt(self, node):
+        if _is_name(node) and node.id in self.env and self.env[node.id][0] == "bt":
+            return self.env[node.id][1]
+        if isinstance(node, ast.Subscript) and _attr_self(node.value, "__branching_times"):
+            return "(btAt t0 bts %s)" % self.nat(node.slice)
+        raise TranslationError("`%s` is not an entry of self.__branching_times" % _u(node))
+
+    def mask(self, node, stamps_of):
+        """np.logical_and(X >= b0, X < b1) -> (lean term of the per-stamp predicate body, stamps term)"""
+        if _is_name(node) and node.id in self.env and self.env[node.id][0] == "mask":
+            return self.env[node.id][1]
+        if not (_np_call(node, "logical_and") and len(node.args) == 2 and not node.keywords):
+            raise TranslationError("mask: `%s` is not np.logical_and(., .)" % _u(node))
+        parts, stamps = [], None
+        for a in node.args:
+            if not (isinstance(a, ast.Compare) and len(a.ops) == 1):
+                raise TranslationError("mask: unsupported conjunct `%s`" % _u(a))
+            st = stamps_of(a.left)
+            if stamps is not None and st != stamps:
+                raise TranslationError("mask: conjuncts compare different stamp arrays")
+            stamps = st
+            fn = {ast.GtE: "geBT", ast.Gt: "gtBT", ast.Lt: "ltBT", ast.LtE: "leBT"}.get(type(a.ops[0]))
+            if fn is None:
+                raise TranslationError("mask: unsupported comparison `%s`" % _u(a))
+            parts.append((0 if fn in ("geBT", "gtBT") else 1, "%s t %s" % (fn, self.bt(a.comparators[0]))))
+        parts.sort(key=lambda x: x[0])
+        return "(%s.map (fun t => %s && %s))" % (stamps, parts[0][1], parts[1][1])
+
+
+# -- (1) the distance fill ---------------------------------------------------------------------------
+
+def translate_fill(inner):
+    """`inner` = the FunctionDef of branch(); returns {"fill": lean term of the accumulated entry}"""
+    cb = inner.args.args[0].arg
+    body = [st for st in inner.body if not (_is_logging(st) or _is_doc(st))]
+    start = None
+    for n, st in enumerate(body):
+        if isinstance(st, ast.Assign) and len(st.targets) == 1 and _is_name(st.targets[0]) \
+                and isinstance(st.value, ast.Call) and _is_name(st.value.func, "set"):
+            start = n
+            break
+    if start is None:
+        raise TranslationError("fill: `available = set(branches[current_branch])` not found")
+    sym = _Sym(cb, "L")
+    D = None
+    B = None
+    R = None
+    fill = None
+
+    def is_ms(node):
+        return isinstance(node, ast.Subscript) and _is_name(node.value) and _is_name(node.slice, cb) \
+            and (B is None or node.value.id == B)
+
+    for st in body[:start]:
+        # guards `if <cmp>: return`
+        if isinstance(st, ast.If) and not st.orelse and all(isinstance(s, ast.Return) or _is_doc(s) or
+                                                            isinstance(s, ast.Expr) for s in st.body) \
+                and any(isinstance(s, ast.Return) for s in st.body):
+            continue
+        if isinstance(st, ast.Assign) and len(st.targets) == 1 and _is_name(st.targets[0]):
+            name, v = st.targets[0].id, st.value
+            if isinstance(v, ast.Call) and _is_name(v.func, "len") and len(v.args) == 1 and is_ms(v.args[0]):
+                B = v.args[0].value.id
+                sym.env[name] = ("size", "ms.length")
+                continue
+            if _np_call(v, "zeros") and len(v.args) == 1 and isinstance(v.args[0], ast.Tuple) and len(v.args[0].elts) == 2 \
+                    and all(_is_name(e) and sym.env.get(e.id, ("",))[0] == "size" for e in v.args[0].elts) and not v.keywords:
+                D = name
+                continue
+            if isinstance(v, ast.Dict) and not v.keys:
+                R = name
+                continue
+            if isinstance(v, ast.Subscript) and _attr_self(v.value, "__branching_times"):
+                sym.env[name] = ("bt", sym.bt(v))
+                continue
+            raise TranslationError("fill: unsupported assignment `%s`" % _u(st))
+        if isinstance(st, ast.For) and isinstance(st.iter, ast.Call) and _is_name(st.iter.func, "enumerate") \
+                and len(st.body) == 1 and isinstance(st.body[0], ast.Assign) \
+                and isinstance(st.body[0].targets[0], ast.Subscript) and _is_name(st.body[0].targets[0].value, R):
+            continue  # the reverse map (checked by the cluster translator)
+        if isinstance(st, ast.For) and _is_name(st.target) and isinstance(st.iter, ast.Subscript) \
+                and _is_name(st.iter.value, "options") and _const_str(st.iter.slice) == "forecast_variables":
+            if fill is not None:
+                raise TranslationError("fill: more than one loop over the forecast variables")
+            if D is None:
+                raise TranslationError("fill: the distance table is not initialised with np.zeros((n, n)) before the fill")
+            fill = _fill_loop(st, sym, D, is_ms)
+            continue
+        raise TranslationError("fill: unsupported statement `%s`" % _u(st))
+    if fill is None:
+        raise TranslationError("fill: loop over options['forecast_variables'] not found")
+    return {"fill": fill}
+
+
+def _fill_loop(loop, sym, D, is_ms):
+    fv = loop.target.id
+    env = dict(sym.env)
+    sym = _Sym(sym.depth_name, sym.depth_term)
+    sym.env = env
+    members = {}   # python member name -> position name
+    result = []
+
+    def series(node):
+        """self.constant_inputs(ensemble_member=e)[fv] -> member term"""
+        if _is_name(node) and node.id in sym.env and sym.env[node.id][0] == "series":
+            return sym.env[node.id][1]
+        if isinstance(node, ast.Subscript) and _is_name(node.slice, fv) and isinstance(node.value, ast.Call) \
+                and _attr_self(node.value.func, "constant_inputs"):
+            call = node.value
+            if len(call.args) == 1 and not call.keywords:
+                e = call.args[0]
+            elif not call.args and len(call.keywords) == 1 and call.keywords[0].arg == "ensemble_member":
+                e = call.keywords[0].value
+            else:
+                raise TranslationError("fill: unsupported call `%s`" % _u(call))
+            if _const(e) is not None and _const(e) == int(_const(e)) and _const(e) >= 0:
+                return "%d" % int(_const(e))
+            if _is_name(e) and e.id in members:
+                return "@" + e.id        # resolved to p / q once the target indices are known
+            raise TranslationError("fill: `%s` is neither a literal member nor a member of the branch" % _u(e))
+        raise TranslationError("fill: `%s` is not a forecast series" % _u(node))
+
+    def stamps_of(node):
+        if isinstance(node, ast.Attribute) and node.attr == "times":
+            return "(fc.T v %s)" % series(node.value)
+        raise TranslationError("fill: `%s` is not the time stamps of a forecast series" % _u(node))
+
+    def vec(node):
+        if isinstance(node, ast.BinOp) and isinstance(node.op, ast.Sub):
+            return "(subVec %s %s)" % (vec(node.left), vec(node.right))
+        if isinstance(node, ast.Subscript) and isinstance(node.value, ast.Attribute) and node.value.attr == "values":
+            return "(selMask (fc.F v %s) %s)" % (series(node.value.value), sym.mask(node.slice, stamps_of))
+        raise TranslationError("fill: unsupported vector expression `%s`" % _u(node))
+
+    def walk(stmts):
+        for st in stmts:
+            if _is_logging(st) or _is_doc(st):
+                continue
+            if isinstance(st, ast.Assign) and len(st.targets) == 1 and _is_name(st.targets[0]):
+                name, v = st.targets[0].id, st.value
+                if _np_call(v, "logical_and"):
+                    sym.env[name] = ("mask", sym.mask(v, stamps_of))
+                else:
+                    sym.env[name] = ("series", series(v))
+                continue
+            if isinstance(st, ast.For) and isinstance(st.iter, ast.Call) and _is_name(st.iter.func, "enumerate") \
+                    and len(st.iter.args) == 1 and is_ms(st.iter.args[0]) and isinstance(st.target, ast.Tuple) \
+                    and len(st.target.elts) == 2 and all(_is_name(e) for e in st.target.elts) and not st.orelse:
+                pos, mem = st.target.elts[0].id, st.target.elts[1].id
+                if len(members) >= 2:
+                    raise TranslationError("fill: more than two nested loops over the members")
+                members[mem] = pos
+                walk(st.body)
+                continue
+            if isinstance(st, (ast.AugAssign, ast.Assign)):
+                tgt = st.target if isinstance(st, ast.AugAssign) else st.targets[0]
+                if not (isinstance(tgt, ast.Subscript) and _is_name(tgt.value, D) and isinstance(tgt.slice, ast.Tuple)
+                        and len(tgt.slice.elts) == 2 and all(_is_name(e) for e in tgt.slice.elts)):
+                    raise TranslationError("fill: unsupported target `%s`" % _u(tgt))
+                if len(members) != 2 or result:
+                    raise TranslationError("fill: the table is written outside the double loop over the members / twice")
+                row, col = (e.id for e in tgt.slice.elts)
+                posmap = {}
+                for mem, pos in members.items():
+                    if pos == row:
+                        posmap[mem] = "(ms.getD p 0)"
+                    if pos == col:
+                        posmap.setdefault(mem, "(ms.getD q 0)")
+                if len(posmap) != 2 or row == col:
+                    raise TranslationError("fill: `%s` is not indexed by the two loop positions" % _u(tgt))
+                v = st.value
+                if not (_np_call(v, "norm") or (isinstance(v, ast.Call) and isinstance(v.func, ast.Attribute)
+                                                and v.func.attr == "norm" and isinstance(v.func.value, ast.Attribute)
+                                                and v.func.value.attr == "linalg" and _is_name(v.func.value.value, "np"))):
+                    raise TranslationError("fill: `%s` is not np.linalg.norm(.)" % _u(v))
+                if len(v.args) != 1 or v.keywords:
+                    raise TranslationError("fill: np.linalg.norm with extra arguments (not the 2-norm of the table)")
+                term = "fc.norm2 %s" % vec(v.args[0])
+                for mem, t in posmap.items():
+                    term = term.replace("@" + mem + " ", t + " ").replace("@" + mem + ")", t + ")")
+                if "@" in term:
+                    raise TranslationError("fill: unresolved member in `%s`" % term)
+                if isinstance(st, ast.Assign):
+                    result.append(term)
+                elif isinstance(st.op, ast.Add):
+                    result.append("acc + %s" % term)
+                elif isinstance(st.op, ast.Sub):
+                    result.append("acc - %s" % term)
+                else:
+                    raise TranslationError("fill: unsupported accumulation `%s`" % _u(st))
+                continue
+            raise TranslationError("fill: unsupported statement `%s`" % _u(st))
+
+    walk(loop.body)
+    if len(result) != 1:
+        raise TranslationError("fill: the double loop does not write the table")
+    return result[0]
+
+
+# -- (2) ControlTreeMixin.discretize_control -------------------------------------------------------------
+
+def translate_tree_control(fn):
+    args = [a.arg for a in fn.args.args]
+    if len(args) != 5:
+        raise TranslationError("discretize_control(self, variable, ensemble_member, times, offset) expected")
+    _, variable, member, times, offset = args
+    body = [st for st in fn.body if not (_is_logging(st) or _is_doc(st))]
+    if len(body) != 3:
+        raise TranslationError("tree discretize_control: expected array creation, loop over the branches, return; got %d "
+                               "statements" % len(body))
+    z = body[0]
+    if not (isinstance(z, ast.Assign) and len(z.targets) == 1 and _is_name(z.targets[0]) and _np_call(z.value, "zeros")
+            and len(z.value.args) == 1 and isinstance(z.value.args[0], ast.Call) and _is_name(z.value.args[0].func, "len")
+            and _is_name(z.value.args[0].args[0], times) and len(z.value.keywords) == 1
+            and z.value.keywords[0].arg == "dtype" and isinstance(z.value.keywords[0].value, ast.Attribute)
+            and _is_name(z.value.keywords[0].value.value, "np")):
+        raise TranslationError("tree discretize_control: expected `control_indices = np.zeros(len(times), dtype=np.intNN)`, "
+                               "got `%s`" % _u(z))
+    arr_name = z.targets[0].id
+    dt = z.value.keywords[0].value.attr
+    bits = {"int8": 7, "int16": 15, "int32": 31, "int64": 63}.get(dt)
+    if bits is None:
+        raise TranslationError("tree discretize_control: unsupported index dtype np.%s" % dt)
+    loop = body[1]
+    if not (isinstance(loop, ast.For) and isinstance(loop.target, ast.Tuple) and len(loop.target.elts) == 2
+            and all(_is_name(e) for e in loop.target.elts) and isinstance(loop.iter, ast.Call)
+            and isinstance(loop.iter.func, ast.Attribute) and loop.iter.func.attr == "items"
+            and _attr_self(loop.iter.func.value, "__branches") and not loop.iter.args and not loop.orelse):
+        raise TranslationError("tree discretize_control: expected `for branch, members in self.__branches.items()`, got `%s`"
+                               % _u(loop))
+    br, mems = (e.id for e in loop.target.elts)
+    ret = body[2]
+    if not (isinstance(ret, ast.Return) and _is_name(ret.value, arr_name)):
+        raise TranslationError("tree discretize_control: expected `return control_indices`, got `%s`" % _u(ret))
+    lb = [st for st in loop.body if not (_is_logging(st) or _is_doc(st))]
+    g = lb[0] if lb else None
+    if not (isinstance(g, ast.If) and not g.orelse and len(g.body) == 1 and isinstance(g.body[0], ast.Continue)
+            and isinstance(g.test, ast.Compare) and len(g.test.ops) == 1 and isinstance(g.test.ops[0], ast.NotIn)
+            and _is_name(g.test.left, member) and _is_name(g.test.comparators[0], mems)):
+        raise TranslationError("tree discretize_control: expected `if ensemble_member not in members: continue` first")
+    sym = _Sym(br, "br.1.length")
+
+    def stamps_of(node):
+        if _is_name(node, times):
+            return "ts"
+        raise TranslationError("tree discretize_control: `%s` is not the time stamps argument" % _u(node))
+
+    def is_key(node):
+        return isinstance(node, ast.Subscript) and _attr_self(node.value, "__discretize_controls_cache") \
+            and isinstance(node.slice, ast.Tuple) and len(node.slice.elts) == 2 \
+            and _is_name(node.slice.elts[0], variable) and _is_name(node.slice.elts[1], br)
+
+    def is_arr_mask(node):
+        return isinstance(node, ast.Subscript) and _is_name(node.value, arr_name)
+
+    state = {"arr": "st.arr", "off": "st.offset", "cache": "st.cache"}
+
+    def nat(node):
+        if _is_name(node, offset):
+            return state["off"]
+        if _is_name(node) and node.id in sym.env and sym.env[node.id][0] == "nat":
+            return sym.env[node.id][1]
+        pl = None
+        if isinstance(node, ast.BinOp) and isinstance(node.op, ast.Add):
+            return "(%s + %s)" % (nat(node.left), nat(node.right))
+        raise TranslationError("tree discretize_control: unsupported count expression `%s`" % _u(node))
+
+    def run(stmts, st_):
+        for s in stmts:
+            if _is_logging(s) or _is_doc(s):
+                continue
+            if isinstance(s, ast.Assign) and len(s.targets) == 1 and _is_name(s.targets[0]):
+                name, v = s.targets[0].id, s.value
+                if name in (arr_name, offset, variable, member, times):
+                    raise TranslationError("tree discretize_control: `%s` is re-bound" % name)
+                if isinstance(v, ast.Subscript) and _attr_self(v.value, "__branching_times"):
+                    sym.env[name] = ("bt", sym.bt(v))
+                elif _np_call(v, "logical_and"):
+                    sym.env[name] = ("mask", sym.mask(v, stamps_of))
+                elif _np_call(v, "count_nonzero") and len(v.args) == 1 and not v.keywords:
+                    sym.env[name] = ("nat", "(%s.count true)" % sym.mask(v.args[0], stamps_of))
+                else:
+                    raise TranslationError("tree discretize_control: unsupported assignment `%s`" % _u(s))
+                continue
+            if isinstance(s, ast.Assign) and len(s.targets) == 1 and is_arr_mask(s.targets[0]):
+                els = sym.mask(s.targets[0].slice, stamps_of)
+                v = s.value
+                if isinstance(v, ast.Call) and _is_name(v.func, "list") and len(v.args) == 1 \
+                        and isinstance(v.args[0], ast.Call) and _is_name(v.args[0].func, "range") and len(v.args[0].args) == 2:
+                    a, b = v.args[0].args
+                    if not (isinstance(b, ast.BinOp) and isinstance(b.op, ast.Add)):
+                        raise TranslationError("tree discretize_control: range(a, b) with b not of the form a + n")
+                    if ast.dump(b.left) == ast.dump(a):
+                        n = b.right
+                    elif ast.dump(b.right) == ast.dump(a):
+                        n = b.left
+                    else:
+                        raise TranslationError("tree discretize_control: range(a, b) with b not of the form a + n")
+                    st_["arr"] = "(writeMask %s %s (List.range' %s %s))" % (st_["arr"], els, nat(a), nat(n))
+                else:
+                    raise TranslationError("tree discretize_control: unsupported fresh block `%s`" % _u(v))
+                continue
+            if isinstance(s, ast.Assign) and len(s.targets) == 1 and is_key(s.targets[0]):
+                v = s.value
+                if not is_arr_mask(v):
+                    raise TranslationError("tree discretize_control: the cache must store control_indices[els], got `%s`" % _u(v))
+                st_["cache"] = "((br.1, readMask %s %s) :: %s)" % (st_["arr"], sym.mask(v.slice, stamps_of), st_["cache"])
+                continue
+            if isinstance(s, ast.AugAssign) and _is_name(s.target, offset) and isinstance(s.op, ast.Add):
+                st_["off"] = "(%s + %s)" % (st_["off"], nat(s.value))
+                continue
+            raise TranslationError("tree discretize_control: unsupported statement `%s`" % _u(s))
+
+    pre = lb[1:-1]
+    run(pre, state)
+    if state != {"arr": "st.arr", "off": "st.offset", "cache": "st.cache"}:
+        raise TranslationError("tree discretize_control: state is written before the cache lookup")
+    tr = lb[-1] if len(lb) >= 2 else None
+    if not (isinstance(tr, ast.Try) and len(tr.handlers) == 1 and not tr.orelse and not tr.finalbody
+            and _is_name(tr.handlers[0].type, "KeyError") and len(tr.body) == 1):
+        raise TranslationError("tree discretize_control: expected `try: ... except KeyError: ...` last in the loop body")
+    hit = tr.body[0]
+    if not (isinstance(hit, ast.Assign) and len(hit.targets) == 1 and is_arr_mask(hit.targets[0]) and is_key(hit.value)):
+        raise TranslationError("tree discretize_control: expected `control_indices[els] = cache[(variable, branch)]`, got `%s`"
+                               % _u(hit))
+    hit_term = "⟨writeMask st.arr %s blk, st.offset, st.cache⟩" % sym.mask(hit.targets[0].slice, stamps_of)
+    miss = dict(state)
+    run(tr.handlers[0].body, miss)
+    miss_term = "⟨%s, %s, %s⟩" % (miss["arr"], miss["off"], miss["cache"])
+    return {"hit": hit_term, "miss": miss_term, "bits": bits}
+
+
+# -- (3) the base class -------------------------------------------------------------------------------
+
+def translate_base_control(fn):
+    args = [a.arg for a in fn.args.args]
+    if len(args) != 5:
+        raise TranslationError("base discretize_control(self, variable, ensemble_member, times, offset) expected")
+    _, variable, member, times, offset = args
+    body = [st for st in fn.body if not (_is_logging(st) or _is_doc(st))]
+    if not (len(body) == 1 and isinstance(body[0], ast.Try) and len(body[0].handlers) == 1 and not body[0].orelse
+            and not body[0].finalbody and _is_name(body[0].handlers[0].type, "KeyError") and len(body[0].body) == 1):
+        raise TranslationError("base discretize_control: expected `try: return cache[variable] except KeyError: ...`")
+
+    def is_key(node):
+        return isinstance(node, ast.Subscript) and _attr_self(node.value, "__discretize_control_cache") \
+            and _is_name(node.slice, variable)
+
+    hit = body[0].body[0]
+    if not (isinstance(hit, ast.Return) and is_key(hit.value)):
+        raise TranslationError("base discretize_control: expected `return self.__discretize_control_cache[variable]`")
+    env = {}
+    cache = "none"
+    ret = None
+
+    def nat(node):
+        if _is_name(node, offset):
+            return "offset"
+        if isinstance(node, ast.Call) and _is_name(node.func, "len") and len(node.args) == 1 and _is_name(node.args[0], times):
+            return "n"
+        if isinstance(node, ast.BinOp) and isinstance(node.op, ast.Add):
+            return "%s + %s" % (nat(node.left), nat(node.right))
+        c = _const(node)
+        if c is not None and c == int(c) and c >= 0:
+            return "%d" % int(c)
+        raise TranslationError("base discretize_control: unsupported expression `%s`" % _u(node))
+
+    def val(node):
+        if _is_name(node) and node.id in env:
+            return env[node.id]
+        if isinstance(node, ast.Call) and _is_name(node.func, "slice") and len(node.args) == 2 and not node.keywords:
+            return "(%s, %s)" % (nat(node.args[0]), nat(node.args[1]))
+        raise TranslationError("base discretize_control: unsupported value `%s`" % _u(node))
+
+    for s in body[0].handlers[0].body:
+        if _is_logging(s) or _is_doc(s):
+            continue
+        if ret is not None:
+            raise TranslationError("base discretize_control: statement after return")
+        if isinstance(s, ast.Assign) and len(s.targets) == 1 and _is_name(s.targets[0]):
+            env[s.targets[0].id] = val(s.value)
+        elif isinstance(s, ast.Assign) and len(s.targets) == 1 and is_key(s.targets[0]):
+            cache = "some %s" % val(s.value)
+        elif isinstance(s, ast.Return):
+            ret = val(s.value)
+        else:
+            raise TranslationError("base discretize_control: unsupported statement `%s`" % _u(s))
+    if ret is None:
+        raise TranslationError("base discretize_control: the KeyError branch does not return")
+    return {"bmiss": "(%s, %s)" % (ret, cache)}
+
+
+def translate_base_loop(fn):
+    """member loop of the base discretize_controls"""
+    body = [st for st in fn.body if not (_is_logging(st) or _is_doc(st))]
+    count = None
+    vloop = None
+    for st in body:
+        if isinstance(st, ast.Assign) and len(st.targets) == 1 and _is_name(st.targets[0]) and _const(st.value, 0) is not None \
+                and not isinstance(st.value, ast.UnaryOp):
+            count = st.targets[0].id
+        if isinstance(st, ast.For) and _is_name(st.target) and _attr_self(st.iter, "controls"):
+            if vloop is not None:
+                raise TranslationError("base discretize_controls: two loops over self.controls")
+            vloop = st
+    if count is None or vloop is None:
+        raise TranslationError("base discretize_controls: `count = 0` / `for variable in self.controls` not found")
+    # the cache is reset before the loop
+    if not any(isinstance(st, ast.Assign) and len(st.targets) == 1 and _attr_self(st.targets[0], "__discretize_control_cache")
+               and isinstance(st.value, ast.Dict) and not st.value.keys for st in body[:body.index(vloop)]):
+        raise TranslationError("base discretize_controls: the cache is not reset before the loop")
+    variable = vloop.target.id
+    vb = [st for st in vloop.body if not (_is_logging(st) or _is_doc(st))]
+    times = None
+    mloop = None
+    for st in vb:
+        if isinstance(st, ast.Assign) and len(st.targets) == 1 and _is_name(st.targets[0]) and isinstance(st.value, ast.Call) \
+                and _attr_self(st.value.func, "times") and len(st.value.args) == 1 and _is_name(st.value.args[0], variable):
+            times = st.targets[0].id
+        elif isinstance(st, ast.For) and _is_name(st.target) and isinstance(st.iter, ast.Call) and _is_name(st.iter.func, "range") \
+                and len(st.iter.args) == 1 and _attr_self(st.iter.args[0], "ensemble_size") and mloop is None:
+            mloop = st
+        else:
+            raise TranslationError("base discretize_controls: unsupported statement in the variable loop `%s`" % _u(st))
+    if times is None or mloop is None:
+        raise TranslationError("base discretize_controls: `times = self.times(variable)` / member loop not found")
+    m = mloop.target.id
+    env = {}
+    new_count = None
+    out = None
+    stops = {}
+    for s in mloop.body:
+        if _is_logging(s) or _is_doc(s):
+            continue
+        if isinstance(s, ast.Assign) and len(s.targets) == 1 and _is_name(s.targets[0]):
+            name, v = s.targets[0].id, s.value
+            if isinstance(v, ast.Call) and _attr_self(v.func, "discretize_control") and not v.keywords and len(v.args) == 4:
+                a = v.args
+                if not (_is_name(a[0], variable) and _is_name(a[2], times)):
+                    raise TranslationError("base loop: discretize_control is not called with (variable, ., times, .)")
+                if not _is_name(a[1], m):
+                    raise TranslationError("base loop: discretize_control is called for `%s`, not for the loop member" % _u(a[1]))
+                if not _is_name(a[3], count) or new_count is not None:
+                    raise TranslationError("base loop: the offset passed to discretize_control is not the running count")
+                env[name] = "ci"
+                continue
+            if isinstance(v, ast.IfExp) and isinstance(v.test, ast.Call) and _is_name(v.test.func, "isinstance") \
+                    and len(v.test.args) == 2 and env.get(getattr(v.test.args[0], "id", None)) == "ci" \
+                    and _is_name(v.test.args[1], "slice"):
+                if not (isinstance(v.body, ast.Attribute) and env.get(getattr(v.body.value, "id", None)) == "ci"
+                        and v.body.attr in ("stop", "start")):
+                    raise TranslationError("base loop: unsupported slice end `%s`" % _u(v.body))
+                stops["slice"] = "s.2" if v.body.attr == "stop" else "s.1"
+                e = v.orelse
+                add = 0
+                pl = _plus(e)
+                if pl:
+                    e, add = pl
+                if isinstance(e, ast.Call) and _is_name(e.func, "int") and len(e.args) == 1:
+                    e = e.args[0]
+                if not ((_np_call(e, "max") or _np_call(e, "amax")) and len(e.args) == 1 and not e.keywords
+                        and env.get(getattr(e.args[0], "id", None)) == "ci"):
+                    raise TranslationError("base loop: unsupported array end `%s`" % _u(v.orelse))
+                stops["arr"] = "arr.foldl max 0 + %d" % add
+                env[name] = "stop"
+                continue
+            if name == count:
+                if isinstance(v, ast.Call) and _is_name(v.func, "max") and len(v.args) == 2 and not v.keywords:
+                    ks = sorted((env.get(getattr(x, "id", None)) or ("count" if _is_name(x, count) else "?")) for x in v.args)
+                    if ks != ["count", "stop"]:
+                        raise TranslationError("base loop: unsupported count update `%s`" % _u(s))
+                    new_count = "max st.1 (stop rc.1)"
+                elif _is_name(v) and env.get(v.id) == "stop":
+                    new_count = "stop rc.1"
+                else:
+                    raise TranslationError("base loop: unsupported count update `%s`" % _u(s))
+                continue
+            raise TranslationError("base loop: unsupported assignment `%s`" % _u(s))
+        if isinstance(s, ast.Assign) and len(s.targets) == 1 and isinstance(s.targets[0], ast.Subscript):
+            t = s.targets[0]
+            if isinstance(t.value, ast.Subscript) and _is_name(t.value.value) and _is_name(t.slice, variable) \
+                    and env.get(getattr(s.value, "id", None)) == "ci":
+                if not _is_name(t.value.slice, m):
+                    raise TranslationError("base loop: the indices are stored for `%s`, not for the loop member" % _u(t.value.slice))
+                out = "st.2.2 ++ [rc.1]"
+                continue
+        raise TranslationError("base loop: unsupported statement `%s`" % _u(s))
+    if new_count is None or out is None or set(stops) != {"slice", "arr"}:
+        raise TranslationError("base loop: call / store / stop / count update incomplete")
+    return {"newcount": new_count, "out": out, "stopslice": stops["slice"], "stoparr": stops["arr"]}
+
+
+# -- (4) per-member uses in transcribe() ----------------------------------------------------------------
+
+_MEMBER_CALLS = {"parameters": 0, "constant_inputs": 0, "history": 0, "seed": 0, "objective": 0, "constraints": 0,
+                 "path_constraints": 0, "ensemble_member_probability": 0, "extra_variable": 1, "state_vector": 1,
+                 "lookup_tables": 0, "initial_state": 0, "bounds_for_member": 0}
+_MEMBER_TABLES = {"__indices", "__indices_as_lists", "__integrators", "__func_initial_inputs", "__func_map_args"}
+_MEMBER_LOCALS = {"ensemble_store", "ensemble_parameter_values", "indices_state", "indices_control"}
+
+
+def translate_member_uses(fn):
+    """every per-member accessor inside a `for ensemble_member in range(self.ensemble_size)` loop of transcribe():
+    (accessor, own) with own = the member index is the loop variable"""
+    uses = []
+
+    def scan(node, mvar):
+        for sub in ast.walk(node):
+            if isinstance(sub, ast.Call) and isinstance(sub.func, ast.Attribute) and _is_name(sub.func.value, "self") \
+                    and sub.func.attr in _MEMBER_CALLS:
+                pos = _MEMBER_CALLS[sub.func.attr]
+                e = None
+                for kw in sub.keywords:
+                    if kw.arg == "ensemble_member":
+                        e = kw.value
+                if e is None and len(sub.args) > pos:
+                    e = sub.args[pos]
+                if e is None:
+                    uses.append((sub.func.attr, False, "default member (argument omitted), line %d" % sub.lineno))
+                else:
+                    uses.append((sub.func.attr, _is_name(e, mvar), "line %d: %s" % (sub.lineno, _u(e, 40))))
+            elif isinstance(sub, ast.Subscript) and isinstance(sub.value, ast.Attribute) and _is_name(sub.value.value, "self") \
+                    and sub.value.attr in _MEMBER_TABLES:
+                uses.append((sub.value.attr.lstrip("_"), _is_name(sub.slice, mvar), "line %d: %s" % (sub.lineno, _u(sub.slice, 40))))
+            elif isinstance(sub, ast.Subscript) and _is_name(sub.value) and sub.value.id in _MEMBER_LOCALS:
+                uses.append((sub.value.id, _is_name(sub.slice, mvar), "line %d: %s" % (sub.lineno, _u(sub.slice, 40))))
+            elif isinstance(sub, ast.Subscript) and isinstance(sub.value, ast.Subscript) and _is_name(sub.value.value, "ensemble_aggregate") \
+                    and isinstance(sub.slice, ast.Tuple) and len(sub.slice.elts) == 2:
+                uses.append(("ensemble_aggregate", _is_name(sub.slice.elts[1], mvar),
+                             "line %d: %s" % (sub.lineno, _u(sub.slice.elts[1], 40))))
+
+    nloops = 0
+    for node in ast.walk(fn):
+        if isinstance(node, ast.For) and _is_name(node.target) and isinstance(node.iter, ast.Call) and _is_name(node.iter.func, "range") \
+                and len(node.iter.args) == 1 and _attr_self(node.iter.args[0], "ensemble_size"):
+            nloops += 1
+            for st in node.body:
+                scan(st, node.target.id)
+    if nloops == 0 or not uses:
+        raise TranslationError("transcribe(): no member loop / no per-member accessor found")
+    return uses, nloops
+
+
+
+# -- (5) the symbol cache key of state_at() -----------------------------------------------------------------
+
+def translate_symbol_key(fn):
+    args = [a.arg for a in fn.args.args]
+    if args[:6] != ["self", "variable", "t", "ensemble_member", "scaled", "extrapolate"]:
+        raise TranslationError("state_at(self, variable, t, ensemble_member, scaled, extrapolate) expected, got %s" % args)
+    body = [st for st in fn.body if not (_is_logging(st) or _is_doc(st))]
+    comps = []
+    name = None
+    tr_ = None
+    for st in body:
+        if isinstance(st, ast.Try):
+            tr_ = st
+            break
+        # `if isinstance(variable, ca.MX): variable = variable.name()`  and guards that only raise
+        if isinstance(st, ast.If) and not st.orelse and len(st.body) == 1:
+            b = st.body[0]
+            if isinstance(b, ast.Raise):
+                continue
+            if isinstance(b, ast.Assign) and _is_name(b.targets[0], "variable") and isinstance(st.test, ast.Call) \
+                    and _is_name(st.test.func, "isinstance") and _is_name(st.test.args[0], "variable") \
+                    and isinstance(b.value, ast.Call) and isinstance(b.value.func, ast.Attribute) \
+                    and _is_name(b.value.func.value, "variable") and b.value.func.attr == "name":
+                continue
+            if name is not None and _is_name(st.test, "extrapolate") and isinstance(b, ast.AugAssign) \
+                    and _is_name(b.target, name) and isinstance(b.op, ast.Add) and _const_str(b.value):
+                comps.append("a.extrapolate")
+                continue
+        if isinstance(st, ast.Assign) and len(st.targets) == 1 and _is_name(st.targets[0]) and name is None \
+                and isinstance(st.value, ast.Call) and isinstance(st.value.func, ast.Attribute) and st.value.func.attr == "format" \
+                and _const_str(st.value.func.value) is not None and not st.value.keywords:
+            name = st.targets[0].id
+            fmt = _const_str(st.value.func.value)
+            if fmt.count("{}") != len(st.value.args) or fmt.count("{") != len(st.value.args):
+                raise TranslationError("state_at: format string `%s` does not use every argument once" % fmt)
+            parts = fmt.split("{}")
+            if any(p == "" for p in parts[1:-2]):
+                raise TranslationError("state_at: adjacent placeholders without a separator in `%s`" % fmt)
+            for a in st.value.args:
+                if _is_name(a, "variable"):
+                    comps.append("a.var")
+                elif _is_name(a, "ensemble_member"):
+                    comps.append("a.member")
+                elif isinstance(a, ast.BinOp) and isinstance(a.op, ast.Sub) and _is_name(a.left, "t") \
+                        and _attr_self(a.right, "initial_time"):
+                    comps.append("a.dt")
+                elif isinstance(a, ast.IfExp) and _is_name(a.test, "scaled") and _const_str(a.body) is not None \
+                        and _const_str(a.orelse) is not None and _const_str(a.body) != _const_str(a.orelse):
+                    comps.append("a.scaled")
+                else:
+                    raise TranslationError("state_at: unsupported cache-key component `%s`" % _u(a))
+            continue
+        raise TranslationError("state_at: unsupported statement before the cache lookup `%s`" % _u(st))
+    if name is None or tr_ is None:
+        raise TranslationError("state_at: cache key / `try: return self.__symbol_cache[name]` not found")
+
+    def is_slot(node):
+        return isinstance(node, ast.Subscript) and _attr_self(node.value, "__symbol_cache") and _is_name(node.slice, name)
+
+    if not (len(tr_.body) == 1 and isinstance(tr_.body[0], ast.Return) and is_slot(tr_.body[0].value)
+            and len(tr_.handlers) == 1 and _is_name(tr_.handlers[0].type, "KeyError") and not tr_.orelse and not tr_.finalbody):
+        raise TranslationError("state_at: expected `try: return self.__symbol_cache[name] except KeyError:`")
+    hb = [x for x in tr_.handlers[0].body if not (_is_logging(x) or _is_doc(x))]
+    if not (len(hb) >= 2 and isinstance(hb[-1], ast.Return) and _is_name(hb[-1].value)
+            and isinstance(hb[-2], ast.Assign) and is_slot(hb[-2].targets[0]) and _is_name(hb[-2].value, hb[-1].value.id)):
+        raise TranslationError("state_at: expected `self.__symbol_cache[name] = sym; return sym` at the end of the KeyError branch")
+    for x in hb[:-2]:
+        for sub in ast.walk(x):
+            if isinstance(sub, ast.Name) and sub.id == name and isinstance(sub.ctx, ast.Store):
+                raise TranslationError("state_at: the cache key is re-bound while the symbol is built")
+            if isinstance(sub, ast.Subscript) and _attr_self(sub.value, "__symbol_cache"):
+                raise TranslationError("state_at: the symbol cache is accessed while the symbol is built")
+    return {"symkey": "(" + ", ".join(comps) + ")"}
+
+
+ALLOC_TEMPLATE = """import RtcVerif.Model.C07Code
+import RtcVerif.Proofs.C07Code
+/-!
+GENERATED on every run of the C07 check by harness/translate_c07.py (`gen_alloc`) from the distance
+fill of `branch()` and `discretize_control` in
+/repo/src/rtctools/optimization/control_tree_mixin.py and from `discretize_control`, the member loop
+of `discretize_controls` and the member loops of `transcribe()` in
+/repo/src/rtctools/optimization/collocated_integrated_optimization_problem.py.  Do not edit.
+The `…Gen` definitions are the source statements read through the table in the translator; the
+theorems tie them to the functions the C07 property theorems are about.
+-/
+namespace RtcVerif.Gen
+open RtcVerif.C07
+
+/-- `distances[p, q]` after the fill (positions in the member list `ms` of a branch of depth `L`) -/
+def fillEntryGen (fc : Forecasts) (t0 : Rat) (bts : List Rat) (nv L : Nat) (ms : List Nat)
+    (p q : Nat) : Rat :=
+  (List.range nv).foldl (fun acc v => %(fill)s) 0
+
+/-- index width of the tree's index array (`np.intNN` holds values up to `2^(NN-1) - 1`) -/
+def indexBitsGen : Nat := %(bits)d
+
+/-- body of `for branch, members in self.__branches.items()` of the tree's `discretize_control` -/
+def dcStepGen (t0 : Rat) (bts : List Rat) (ts : List Rat) (m : Nat) (st : DC)
+    (br : List Nat × List Nat) : DC :=
+  if !(br.2.contains m) then st
+  else
+    match lookupB st.cache br.1 with
+    | some blk => %(hit)s
+    | none => %(miss)s
+
+/-- one call `discretize_control(variable, m, times, offset)` of `ControlTreeMixin` -/
+def discretizeControlGen (brs : List (List Nat × List Nat)) (t0 : Rat) (bts : List Rat)
+    (ts : List Rat) (m offset : Nat) (cache : BlockCache) : List Nat × BlockCache :=
+  let st := brs.foldl (dcStepGen t0 bts ts m) ⟨List.replicate ts.length 0, offset, cache⟩
+  (st.arr, st.cache)
+
+/-- base `discretize_control` for a variable with `n` time stamps -/
+def defaultControlGen (n : Nat) (_m : Nat) (offset : Nat) (cache : Option (Nat × Nat)) :
+    (Nat × Nat) × Option (Nat × Nat) :=
+  match cache with
+  | some s => (s, some s)
+  | none => %(bmiss)s
+
+def stopSliceGen (s : Nat × Nat) : Nat := %(stopslice)s
+
+def stopArrGen (arr : List Nat) : Nat := %(stoparr)s
+
+/-- body of `for ensemble_member in range(self.ensemble_size)` of the base `discretize_controls` -/
+def ctrlStepGen {R C : Type} (dc : Nat → Nat → C → R × C) (stop : R → Nat)
+    (st : Nat × C × List R) (m : Nat) : Nat × C × List R :=
+  let rc := dc m st.1 st.2.1
+  (%(newcount)s, rc.2, %(out)s)
+
+/-- per-member accessors used inside the member loops of `transcribe()`: (accessor, the member
+    index is the loop's member) -/
+def memberUsesGen : List (String × Bool) :=
+  [%(uses)s]
+
+/-- cache key of `state_at` -/
+def symbolKeyGen (a : SymArgs) :=
+  %(symkey)s
+
+/-- **distance fill**: read through the reverse map, the filled table is the model's table of the
+    level: the sum over the forecast variables of the norm of the difference of the two members'
+    series on the window `[BT[L+1], BT[L+2])` (member 0's stamps) -/
+theorem distFillGen_eq_model (fc : Forecasts) (t0 : Rat) (bts : List Rat) (nv L : Nat)
+    (ms : List Nat) (a b : Nat) (ha : a ∈ ms) (hb : b ∈ ms) :
+    fillEntryGen fc t0 bts nv L ms (ms.idxOf a) (ms.idxOf b) = distSpec fc t0 bts nv L a b :=
+  fillEntryRef_eq_distSpec fc t0 bts nv L ms a b ha hb
+
+/-- **one call of the tree's `discretize_control`** = one round of requests of the model's
+    allocator (`reqAll st (memberReqs c ts m)`); the array entries are block start + rank at the
+    level written last (`levelAt`), 0 where no segment covers the stamp -/
+theorem discretizeControlGen_eq_model (c : TreeCfg) (brs : List (List Nat × List Nat))
+    (ts : List Rat) (m : Nat) (stM : Alloc (List Nat)) (cC : BlockCache) (hchain : ChainOf c brs m)
+    (hinv : Inv (fun p : List Nat => segCount c.t0 c.bts p.length ts) stM)
+    (hrel : Rel (fun p => segCount c.t0 c.bts p.length ts) cC stM.cache) :
+    Rel (fun p => segCount c.t0 c.bts p.length ts)
+      (discretizeControlGen brs c.t0 c.bts ts m stM.count cC).2 (reqAll stM (memberReqs c ts m)).1.cache ∧
+    (discretizeControlGen brs c.t0 c.bts ts m stM.count cC).1.length = ts.length ∧
+    ∀ i, i < ts.length →
+      (discretizeControlGen brs c.t0 c.bts ts m stM.count cC).1.getD i 0 =
+        match levelAt c.t0 c.bts (ts.getD i 0) with
+        | none => 0
+        | some L => (lookup (reqAll stM (memberReqs c ts m)).1.cache (c.path m L)).getD 0
+            + rankIn c.t0 c.bts L ts i := by
+  obtain ⟨_, h2, h3, _, _, h6⟩ := discretizeControlRef_spec c brs ts m stM cC hchain hinv hrel
+  exact ⟨h2, h3, h6⟩
+
+/-- **the member loop under the control tree** (base loop + tree `discretize_control` +
+    `count = max(count, max(indices) + 1)`): every member's index array is the model's `treeIdx`,
+    the count ends at the model's count, and the index width is the model's `int16Ok` guard -/
+theorem treeLoopGen_eq_model (c : TreeCfg) (brs : List (List Nat × List Nat)) (ts : List Rat)
+    (count0 : Nat) (hts : ts ≠ []) (ht0 : ∀ t ∈ ts, c.t0 ≤ t)
+    (hch : ∀ m, m < c.E → ChainOf c brs m) :
+    ((List.range c.E).foldl (ctrlStepGen (discretizeControlGen brs c.t0 c.bts ts) stopArrGen)
+      (count0, [], [])).1 = (treeAlloc c ts count0).count ∧
+    (∀ m i, m < c.E → i < ts.length →
+      (((List.range c.E).foldl (ctrlStepGen (discretizeControlGen brs c.t0 c.bts ts) stopArrGen)
+        (count0, [], [])).2.2.getD m []).getD i 0 = treeIdx c ts count0 m i) ∧
+    (∀ count, int16Ok count = decide (count ≤ 2 ^ indexBitsGen)) := by
+  have h := treeLoop_eq_model c brs ts count0 hts ht0 hch
+  rw [← foldl_ctrlStep_eq] at h
+  exact ⟨h.1, h.2.2, int16Ok_eq_bits⟩
+
+/-- **the default member loop** (base loop + base `discretize_control`): all members receive the
+    same slice, which is the model's shared block -/
+theorem defaultLoopGen_eq_model (E n count0 : Nat) (hE : 0 < E) :
+    (List.range E).foldl (ctrlStepGen (defaultControlGen n) stopSliceGen) (count0, none, []) =
+      ((flatAlloc .shared E n count0).count, some (count0, count0 + n),
+        List.replicate E (count0, count0 + n)) ∧
+    ∀ m i, sliceIdx (count0, count0 + n) i = flatIdx .shared E n count0 m i := by
+  have h := defaultLoop_eq_model E n count0 hE
+  rw [← foldl_ctrlStep_eq] at h
+  exact h
+
+/-- **member loops of `transcribe()`**: every per-member accessor is indexed by the loop's member -/
+theorem memberUsesGen_own : ∀ u ∈ memberUsesGen, u.2 = true := by
+  decide
+
+/-- **the symbol cache of `state_at`**: the key determines all arguments of the call, the
+    ensemble member among them, so the memoised accessor returns for every call what is built for
+    that call's own arguments (`memoRun_transparent`) -/
+theorem symbolKeyGen_injective (V : Type) (build : SymArgs → V) (calls : List SymArgs) :
+    (∀ a b : SymArgs, symbolKeyGen a = symbolKeyGen b → a = b) ∧
+    memoRun symbolKeyGen build calls [] = calls.map build := by
+  have hinj : ∀ a b : SymArgs, symbolKeyGen a = symbolKeyGen b → a = b := by
+    intro a b h
+    cases a; cases b
+    simp only [symbolKeyGen, Prod.mk.injEq] at h
+    simp_all
+  exact ⟨hinj, memoRun_transparent symbolKeyGen build hinj calls [] (by simp)⟩
+
+end RtcVerif.Gen
+"""
+
+ALLOC_THEOREMS = ["distFillGen_eq_model", "discretizeControlGen_eq_model", "treeLoopGen_eq_model",
+                  "defaultLoopGen_eq_model", "memberUsesGen_own", "symbolKeyGen_injective"]
+
+
+def translate_alloc():
+    d = os.path.join(REPO, "src", "rtctools", "optimization")
+    tree = ast.parse(open(os.path.join(d, "control_tree_mixin.py")).read())
+    outer = _find_method(tree, "ControlTreeMixin", "discretize_controls")
+    inner = [n for n in outer.body if isinstance(n, ast.FunctionDef)]
+    if len(inner) != 1:
+        raise TranslationError("expected exactly one nested function in discretize_controls")
+    out = {}
+    out.update(translate_fill(inner[0]))
+    out.update(translate_tree_control(_find_method(tree, "ControlTreeMixin", "discretize_control")))
+    base = ast.parse(open(os.path.join(d, "collocated_integrated_optimization_problem.py")).read())
+    cls = "CollocatedIntegratedOptimizationProblem"
+    out.update(translate_base_control(_find_method(base, cls, "discretize_control")))
+    out.update(translate_base_loop(_find_method(base, cls, "discretize_controls")))
+    out.update(translate_symbol_key(_find_method(base, cls, "state_at")))
+    uses, nloops = translate_member_uses(_find_method(base, cls, "transcribe"))
+    out["uses"] = ", ".join('("%s", %s)' % (a, "true" if own else "false") for a, own, _ in uses)
+    out["_foreign"] = [(a, w) for a, own, w in uses if not own]
+    out["_nuses"] = len(uses)
+    out["_nloops"] = nloops
+    return out
+
+
+def gen_alloc(c):
+    """(re)generate lean/RtcVerif/Gen/ControlTreeAlloc.lean; returns the extra obligations for c.prove"""
+    gdir = os.path.join(LEAN_DIR, "RtcVerif", "Gen")
+    os.makedirs(gdir, exist_ok=True)
+    path = os.path.join(gdir, "ControlTreeAlloc.lean")
+    what = "translator: distance fill / discretize_control / base member loop / transcribe member loops"
+    try:
+        out = translate_alloc()
+    except TranslationError as e:
+        c.broken.append((what, str(e)))
+        return []
+    except (OSError, SyntaxError) as e:
+        c.broken.append((what, "cannot read the source: %s" % e))
+        return []
+    for a, w in out["_foreign"]:
+        c.broken.append(("transcribe() member loop", "per-member accessor `%s` is not indexed by the loop's member (%s)" % (a, w)))
+    text = ALLOC_TEMPLATE % out
+    old = open(path).read() if os.path.exists(path) else None
+    if old != text:
+        tmp = path + ".tmp%d" % os.getpid()
+        with open(tmp, "w") as f:
+            f.write(text)
+        os.replace(tmp, path)
+    c.extra["member_uses_in_transcribe"] = {"loops": out["_nloops"], "accessors": out["_nuses"]}
+    return [("RtcVerif.Gen.ControlTreeAlloc", "RtcVerif.Gen", ALLOC_THEOREMS)]
